@@ -10,7 +10,8 @@ echo "|---|---|---|---|" >> $out
 missed=0
 for d in seeded/*/; do
   id=$(basename $d)
-  prop=$(python3 -c "import json;print(json.load(open('$d/meta.json'))['breaks_property'])")
+  # (the check that sees the change: normally the one of the property it breaks)
+  prop=$(python3 -c "import json;m=json.load(open('$d/meta.json'));print(m.get('evaluate_with') or m['breaks_property'])")
   line=$(tools/seed_eval.sh $d/patch.diff $prop | tail -1)
   code=$(echo "$line" | sed -n 's/.*exit=\([0-9]*\).*/\1/p')
   classes=$(echo "$line" | sed 's/.*violation-classes: //' | cut -c1-220)
